@@ -29,6 +29,9 @@ def _also_nostats(ctx, tier, run, fns):
 # debug_assert! (absent from release builds) has to be ruled out separately
 DEBUG_ONLY_RULE = ('C01', 'C03', 'C04', 'C05', 'C06', 'C07', 'C08', 'C11', 'C12', 'C13', 'C15', 'C18', 'C20')
 
+# properties whose rules specialise the code per policy / scope (the folding of `policy == X` assumes variant equality)
+SPECIALISED = ('C03', 'C04', 'C05', 'C06', 'C07', 'C08', 'C14', 'C15')
+
 
 def run(pid, tier):
     fn = globals().get('prop_' + pid)
@@ -44,6 +47,9 @@ def run(pid, tier):
         if pid in DEBUG_ONLY_RULE:
             from . import rules_x as X
             X.check_no_effects_in_debug_assert(r, ctx, '%s-D1' % pid)
+        if pid in SPECIALISED:
+            from . import rules_x as X
+            X.check_enum_equality(r, ctx, '%s-T9' % pid)
     except Exception as e:
         traceback.print_exc()
         return fail_closed(pid, tier, 'analysis crashed: %s: %s' % (type(e).__name__, e))
@@ -259,6 +265,7 @@ def prop_C07(ctx, tier):
     K.check_orphan_tolerance(run, ctx, 'C07-P1')
     K.check_store_pairing(run, ctx, 'C07-S3')
     nq = K.check_newcomer_queued_before_victims(run, ctx, 'C07-S4')
+    S.check_positional_removals(run, ctx, 'C07-S5')
     run.require('C07-S4', 'store paths with a victim selection', nq, 12)
     _also_nostats(ctx, tier, run, [lambda r, c: K.check_hit_effects(r, c, 'C07'), S.check_orientation])
     run.violations = [v for v in run.violations if v['rule'].startswith('C07')]
@@ -308,6 +315,7 @@ def prop_C04(ctx, tier):
     S.check_random_victim(run, ctx)
     S.check_queue_dedupe(run, ctx)
     K.check_requeue_scenario(run, ctx, 'C04-P3')
+    S.check_positional_removals(run, ctx, 'C04-P6')
     S.check_victim_key_identity(run, ctx, 'C04-P5')
     _also_nostats(ctx, tier, run, [K.check_overflow_form, K.check_overflow_test_on_every_path, K.check_one_victim, K.check_store_pairing,
                                     K.check_replacement_before_overflow_test, S.check_random_victim, S.check_queue_dedupe])
@@ -486,6 +494,7 @@ def prop_C13(ctx, tier):
               ASSUME_COMMON)
     S.check_registry_routing(run, ctx)
     S.check_order_preserving(run, ctx, 'C13-W3')
+    S.check_positional_removals(run, ctx, 'C13-W4')
     n = W.check_callbacks(run, ctx, rules=('C13',))
     from . import planted as PL
     PL.expect_fires(run, 'C13-W1', 'a conditional callback keeps the queue slot of a removed key', PL.plant_check_callback_keeps_queue_slot(ctx), lambda r, c: W.check_callbacks(r, c, rules=('C13',)))
